@@ -11,6 +11,16 @@
 //	                                semantics of the ledger's XModel: entries with val 0 (delete mark)
 //	                                are found by Get only (not iterated), a never-written key is
 //	                                returned by Get as an empty-version entry, Select never errors
+//	                                kind r = the REAL xmodel.XModel (real.go): a ledger and a state store on the
+//	                                instrumented in-memory engine, every entry written by a transaction of its own
+//	                                through XModel.DoTx; same semantics (and same model) as kind x
+//	fault <b> <k>                   (kind r) from now on the version record of the key - the transaction that wrote its
+//	                                current version - cannot be read from the store (kvmem.SetReadFault) -> ok.
+//	                                A later call that REPORTS an error (Get / Put / Select, or the iterator's Error()
+//	                                once the harness stops calling Next) ends the comparison of the case: it and the
+//	                                lines after it are answered "-".  A call that reports no error is answered, judged
+//	                                and compared with the model as over the healthy store: "report the error or be
+//	                                complete".
 //	get <b> <k>                     -> v<val> | nf (ErrNotFound) | del (ErrHasDel) | err
 //	put <b> <k> <val>               -> ok | err            (val 0 is the delete mark "\x00")
 //	del <b> <k>                     -> ok | err
@@ -459,6 +469,11 @@ func doSelect(c *sandbox.XMCache, b int, lo, hi string, n int) (res selRes) {
 		res.keys = append(res.keys, keyID(it.Key()))
 		res.vals = append(res.vals, valID(it.Value()))
 	}
+	// what a contract does when it stops calling Next (bridge: iter.Error() after the loop)
+	if err := it.Error(); err != nil {
+		it.Close()
+		return selRes{status: "itererr", keys: res.keys, vals: res.vals}
+	}
 	it.Close()
 	return res
 }
@@ -664,6 +679,7 @@ type caseInfo struct {
 	exactThenMore                     bool // a transfer covered exactly, then another successful one of the same address
 	events                            int
 	flushed                           bool
+	faulted, faultReported            bool // a read fault was installed / a later call reported it
 }
 
 // xferRec: one Transfer call of the first run as the oracle saw it
@@ -693,10 +709,14 @@ func chunkOwners(chunk []*protos.TxInput, from int) (int, bool) {
 func runCase(lines []string) (answers []string, viols []viol, info caseInfo) {
 	add := func(key, f string, a ...interface{}) { viols = append(viols, viol{key, fmt.Sprintf(f, a...)}) }
 	w0 := strings.Fields(lines[0])
-	if len(w0) < 2 || w0[0] != "reset" || (w0[1] != "m" && w0[1] != "x" && w0[1] != "M" && w0[1] != "X") {
+	if len(w0) < 2 || w0[0] != "reset" || (w0[1] != "m" && w0[1] != "x" && w0[1] != "M" && w0[1] != "X" && w0[1] != "r") {
 		return []string{"bad-op"}, nil, info
 	}
 	kind := w0[1][0]
+	real := kind == 'r'
+	if real {
+		kind = 'x' // the shadow of the backing state and the model are those of the XModel-like reader
+	}
 	nilEmptyKey = kind == 'M' || kind == 'X'
 	if nilEmptyKey {
 		kind += 'a' - 'A'
@@ -737,8 +757,34 @@ func runCase(lines []string) (answers []string, viols []viol, info caseInfo) {
 	mustRead := map[bk]string{} // keys the read set has to hold, with the reason
 
 	fr := &firstReader{}
-	c := sandbox.NewXModelCache(&contract.SandboxConfig{XMReader: buildReader(kind, es), UTXOReader: fr})
+	var rs *realStore
+	mkReader := func() ledger.XMReader {
+		if !real {
+			return buildReader(kind, es)
+		}
+		if rs == nil {
+			var err error
+			if rs, err = buildRealStore(es); err != nil {
+				xvlib.Die("real XModel: %v", err)
+			}
+		}
+		return rs.xm
+	}
+	defer func() {
+		if rs != nil {
+			rs.close()
+		}
+	}()
+	if real {
+		for _, e := range es {
+			if e.ver == 0 || e.b == 0 {
+				return []string{"bad-op"}, nil, info // the ledger stores neither empty versions nor the transient bucket
+			}
+		}
+	}
+	c := sandbox.NewXModelCache(&contract.SandboxConfig{XMReader: mkReader(), UTXOReader: fr})
 	answers = append(answers, "ok")
+	faulted, aborted := false, false
 	var prog [][]string
 	var progIdx []int // index in lines of every executed call
 	// shadow of the token side, fed by the log of the first-run reader only
@@ -792,11 +838,28 @@ func runCase(lines []string) (answers []string, viols []viol, info caseInfo) {
 			answers = append(answers, "bad-op")
 			continue
 		}
+		if aborted {
+			answers = append(answers, "-") // a call reported the injected read fault: the execution is over
+			continue
+		}
 		if flushed && isCall(w[0]) {
 			answers = append(answers, "bad-op") // the execution ended with Flush
 			continue
 		}
 		switch {
+		case w[0] == "fault" && len(w) == 3:
+			b, _ := strconv.Atoi(w[1])
+			k, _ := strconv.Atoi(w[2])
+			e, ok := back[bk{b, k}]
+			if flushed {
+				answers = append(answers, "bad-op")
+				break
+			}
+			if real && ok { // elsewhere there is no row to damage: a no-op
+				rs.fault(e)
+				faulted, info.faulted = true, true
+			}
+			answers = append(answers, "ok")
 		case w[0] == "utxo":
 			items, ok := parseUtxo(w[1:])
 			if !ok || len(prog) > 0 {
@@ -804,7 +867,7 @@ func runCase(lines []string) (answers []string, viols []viol, info caseInfo) {
 				break
 			}
 			fr = &firstReader{items: items}
-			c = sandbox.NewXModelCache(&contract.SandboxConfig{XMReader: buildReader(kind, es), UTXOReader: fr})
+			c = sandbox.NewXModelCache(&contract.SandboxConfig{XMReader: mkReader(), UTXOReader: fr})
 			answers = append(answers, "ok")
 		case wellFormed(w) && w[0] == "xf":
 			prog = append(prog, w)
@@ -933,6 +996,12 @@ func runCase(lines []string) (answers []string, viols []viol, info caseInfo) {
 			prog = append(prog, w)
 			progIdx = append(progIdx, li+1)
 			ans, sr := execOp(c, w)
+			if faulted && (ans == "err" || ans == "itererr") {
+				// the fault was reached and reported: nothing more is claimed about this execution
+				aborted, info.faultReported = true, true
+				answers = append(answers, "-")
+				break
+			}
 			answers = append(answers, ans)
 			b, _ := strconv.Atoi(w[1])
 			switch w[0] {
@@ -978,6 +1047,8 @@ func runCase(lines []string) (answers []string, viols []viol, info caseInfo) {
 				if !sr.ok {
 					if sr.status == "panic" {
 						add("select-panic", "%s panicked", line)
+					} else if sr.status == "itererr" {
+						add("select-iterator-error", "%s: the iterator reports an error over a healthy backing state", line)
 					} else if !(w[2] != "-" && w[3] != "-" && lo > hi) {
 						add("select-error", "%s was refused although the range is well formed", line)
 					}
@@ -1490,6 +1561,7 @@ func randTokenCase(r *xvlib.Rng) []string {
 
 func main() {
 	args := xvlib.ParseArgs()
+	scratchDir = args.Scratch
 	out := xvlib.NewOut(args.Out)
 	defer out.Close()
 	// XMCache.flushUTXORWSet prints every token output to stdout; the harness reports through files only
@@ -1536,6 +1608,13 @@ func main() {
 			}
 		}
 		out.Case(strings.Join(lines, ";"), nontrivial)
+		if info.faulted {
+			if info.faultReported {
+				out.Count("read-fault:reported")
+			} else {
+				out.Count("read-fault:not-reached-or-not-reported")
+			}
+		}
 		if info.xfers > 0 || info.events > 0 {
 			out.Count("token-case")
 			cnt := func(name string, n int) {
@@ -1652,6 +1731,86 @@ func main() {
 			out.Sample(map[string]interface{}{"ops": lines, "impl": a})
 		}
 	}
+	// 2b. the sandbox over the REAL XModel (real.go): the same random programs over healthy stores, then stores on
+	// which one version record becomes unreadable in the middle of the program - every later call must report the
+	// error or answer as over the healthy store (a scan: be complete)
+	realCases, faultCases := 300, 700
+	if thorough {
+		realCases, faultCases = 5000, 12000
+	}
+	realWorld := func(nKeys int) []entry {
+		for {
+			_, es := randWorld(rng, nKeys)
+			var r []entry
+			for _, e := range es {
+				if e.b != 0 && e.ver != 0 {
+					r = append(r, e)
+				}
+			}
+			if len(r) >= 2 {
+				return r
+			}
+		}
+	}
+	// XModel.Select with a nil end key scans nothing (limit "<bucket>/"; §6 C10 "Expected", an observation): the cases over
+	// the real XModel give every scan an explicit upper bound (9 = above every key)
+	bounded := func(lines []string) []string {
+		for i, l := range lines {
+			if w := strings.Fields(l); len(w) == 5 && w[0] == "sel" && w[3] == "-" {
+				w[3] = "9"
+				lines[i] = strings.Join(w, " ")
+			}
+		}
+		return lines
+	}
+	for i := 0; i < realCases; i++ {
+		nKeys := 2 + rng.Intn(7)
+		lines := append([]string{"reset r " + entriesString(realWorld(nKeys))}, randProgram(rng, nKeys, 12)...)
+		runAndEmit(bounded(append(lines, "rwset", "rerun")))
+	}
+	for _, victim := range []int{1, 2, 3} { // small and systematic: each key of a three-key range, every scan shape
+		for _, sel := range []string{"sel 1 - - 99", "sel 1 1 - 99", "sel 1 - 3 99", "sel 1 2 4 99", "sel 1 - - 1", "sel 1 - - 2", "sel 1 1 9 3", "get 1 %d", "put 1 %d 7", "del 1 %d"} {
+			for _, pre := range []string{"", "get 1 1", "put 1 2 9", "del 1 1", "sel 1 - - 1", "put 1 0 8"} {
+				lines := []string{"reset r 1:1:1:3 1:2:2:4 1:3:3:5 2:1:4:2"}
+				if pre != "" {
+					lines = append(lines, pre)
+				}
+				op := sel
+				if strings.Contains(op, "%d") {
+					op = fmt.Sprintf(op, victim)
+				}
+				lines = append(lines, fmt.Sprintf("fault 1 %d", victim), op, "sel 1 - - 99", "rwset", "rerun")
+				runAndEmit(bounded(lines))
+			}
+		}
+	}
+	for i := 0; i < faultCases; i++ {
+		nKeys := 2 + rng.Intn(7)
+		es := realWorld(nKeys)
+		lines := []string{"reset r " + entriesString(es)}
+		if rng.Chance(2, 3) {
+			lines = append(lines, randProgram(rng, nKeys, 4)...)
+		}
+		v := es[rng.Intn(len(es))]
+		lines = append(lines, fmt.Sprintf("fault %d %d", v.b, v.k))
+		for j, n := 0, 1+rng.Intn(3); j < n; j++ {
+			switch rng.Intn(6) {
+			case 0:
+				lines = append(lines, fmt.Sprintf("get %d %d", v.b, v.k))
+			case 1:
+				lines = append(lines, fmt.Sprintf("put %d %d %d", v.b, v.k, 20+j))
+			case 2:
+				lines = append(lines, fmt.Sprintf("sel %d - - 99", v.b))
+			case 3:
+				lines = append(lines, fmt.Sprintf("sel %d - - %d", v.b, rng.Intn(nKeys+1)))
+			case 4:
+				lines = append(lines, fmt.Sprintf("sel %d %s - 99", v.b, randBound(rng, nKeys)))
+			default:
+				lines = append(lines, randProgram(rng, nKeys, 2)...)
+			}
+		}
+		runAndEmit(bounded(append(lines, "rwset", "rerun")))
+	}
 	// 3. the token side, exhaustively over small universes: every list of ≤ 3 unspent outputs worth 0..3 of one
 	// address x every sequence of transfers with amounts 0..4 (so every way a prefix covers an amount exactly,
 	// with change, or not at all is hit, also with zero-valued outputs), and every interleaving of outputs of two
@@ -1733,5 +1892,5 @@ func main() {
 		}
 	}
 	out.Stats.Exhaustive = true
-	out.Stats.Rule = fmt.Sprintf("exhaustive: every program of ≤ %d ops over the full alphabet (get/put/del on 3 keys, 6 scans with different bounds and early stops) and of ≤ %d ops over the reduced alphabet (3 scans), on each of 3 backing states (MemXModel with live/deleted/empty-version entries; XModel-like with live/deleted/never-written keys; XModel-like with a second bucket): %d programs; random: %d programs of ≤ 15 ops over ≤ 8 keys and 4 buckets (incl. the transient bucket) on random backing states of both reader kinds; every program is followed by the RW-set dump and a re-run over XMReaderFromRWSet; token side exhaustive: every list of ≤ 3 unspent outputs worth 0..3 of one address x every sequence of ≤ %d transfers with amounts 0..4, and every list of ≤ 3 outputs worth 1..2 of two addresses x every pair of transfers (either sender, amounts 1..3): %d cases; token side random: %d programs of 0-4 transfers (amounts mostly an exact prefix sum of the sender's remaining outputs, or one off, or zero, or more than the sender owns; zero-valued outputs; up to 3 senders) and 0-2 events mixed with ≤ 8 key ops; every token case ends with Flush, the RW-set and UTXORWSet dumps and the re-run over XMReaderFromRWSet + NewUTXOReaderFromInput(inputs parsed from the write set) + Flush; a case is non-trivial if it reads or transfers; distinct by op lines", exLen, exLenSmall, exCount, randCases, xfLen, tokEx, tokCases)
+	out.Stats.Rule = fmt.Sprintf("exhaustive: every program of ≤ %d ops over the full alphabet (get/put/del on 3 keys, 6 scans with different bounds and early stops) and of ≤ %d ops over the reduced alphabet (3 scans), on each of 3 backing states (MemXModel with live/deleted/empty-version entries; XModel-like with live/deleted/never-written keys; XModel-like with a second bucket): %d programs; random: %d programs of ≤ 15 ops over ≤ 8 keys and 4 buckets (incl. the transient bucket) on random backing states of both reader kinds; every program is followed by the RW-set dump and a re-run over XMReaderFromRWSet; the REAL xmodel.XModel on a store (reset r): %d random programs over healthy stores, 180 systematic + %d random programs in which the version record of one key becomes unreadable (read fault on one row) before the last calls - a call then reports the error or answers as over the healthy store; token side exhaustive: every list of ≤ 3 unspent outputs worth 0..3 of one address x every sequence of ≤ %d transfers with amounts 0..4, and every list of ≤ 3 outputs worth 1..2 of two addresses x every pair of transfers (either sender, amounts 1..3): %d cases; token side random: %d programs of 0-4 transfers (amounts mostly an exact prefix sum of the sender's remaining outputs, or one off, or zero, or more than the sender owns; zero-valued outputs; up to 3 senders) and 0-2 events mixed with ≤ 8 key ops; every token case ends with Flush, the RW-set and UTXORWSet dumps and the re-run over XMReaderFromRWSet + NewUTXOReaderFromInput(inputs parsed from the write set) + Flush; a case is non-trivial if it reads or transfers; distinct by op lines", exLen, exLenSmall, exCount, randCases, realCases, faultCases, xfLen, tokEx, tokCases)
 }
